@@ -51,14 +51,31 @@ RULE = ('systems: orthogonal / tilted / general (rotated, left-handed) cells wit
         'wrap, System.neighborlist(model=dump of the previous answer), r0(), other cutoff, other sizes, nothing), the '
         'query through NeighborList(system=), System.neighborlist or nlist(); every answer is compared for the state '
         'read back from the object at that moment, and earlier answers must not change. '
+        '"fine": exact regime for cutoffs that single precision cannot hold — everything a multiple of 2^-(24-e), cutoff '
+        'C*unit with C odd in [2^24, 2^25) (25 significant bits: exact in double with an exact square), 2-14 atoms, '
+        'designed pairs along an axis at C+k units, exact ties in general directions (four-square identity) and one unit '
+        'off them, general directions within 2|D_z| units^2 of C^2, directly and through periodic images, orthogonal / '
+        'tilted / row- and axis-permuted left-handed cells, cutoff 0.33-1.6 cell edges; "nearcut": arbitrary doubles '
+        '(general, rotated, sheared cells), designed pairs at |d|^2 = c^2 (1 +- k band), k = 4..1e6, band = the derived '
+        'rounding band of the case (about 1e-13..1e-8 relative); "crystal": sc / bcc / fcc supercells (conventional or '
+        'sheared by whole lattice vectors, atom order shuffled, up to 400 atoms) on a dyadic grid, cutoff a multiple of '
+        'the plane spacing or exactly a shell radius: every bin equally and maximally filled (own bin and all 13 stencil '
+        'bins full at once), shells exactly at the cutoff; "narrowbin": a pair closer than the cutoff along one axis '
+        'placed across an edge of the grid that a bin width a hair below the cutoff (its single-precision rounding, or '
+        'c(1-1e-9..1e-6)) would have; "scale": sparse lists for 100001-103000 atoms (indices of 1-6 digits) loaded from '
+        'text, dumped and re-loaded, and a whole 47^3..50^3 simple-cubic lattice through nlist with a closed-form oracle, '
+        'then dump -> load. '
         'distinct = distinct canonical input line; non-trivial = at least one pair below the cutoff.')
 ASSUMPTIONS = [
     'IEEE double evaluation of dmag2 < cutoff*cutoff agrees with the exact comparison except for pairs whose exact '
-    'squared distance is within 1e-9 (relative) of cutoff^2; such pairs are exempt outside the dyadic-grid regime '
-    '(on the grid every product and sum is exact and ties are compared exactly)',
+    'squared distance is within u(16 S/c + 8) (relative, u = 2^-53, S = max_j(2 max|p_j| + sum_k |b_kj|); derived in '
+    '`rounding_band` from the operation count of dmag2_c) of cutoff^2; only such pairs are exempt, and only outside the '
+    'dyadic-grid regimes (grid, fine, crystal: every product and sum is exact there, ties are compared exactly). '
+    'The declared types this rests on (double everywhere) are a proof obligation: src_reals_double',
     'np.arange / np.digitize / 1.01*cutoff in floating point place an atom in another bin than the exact model only '
-    'when it lies within 1e-9*cutoff of a bin edge or of the superbox boundary (the model flags these; for atoms '
-    'inside the cell the final rows do not depend on the binning: theorem alg_complete)',
+    'when it lies within the same relative bound (times the cutoff) of a bin edge or of the superbox boundary (the '
+    'model flags these; 1e-9 is kept for the `outside` systems; for atoms inside the cell the final rows do not depend '
+    'on the binning: theorem alg_complete)',
     'np.unique hands the occupied bins to the sweep in an order that is not modelled; theorem alg_order_irrelevant '
     'shows the rows do not depend on it',
     'np.empty garbage is arbitrary (model: an arbitrary function junk r k; theorem storage_refines is for all junk)',
@@ -73,7 +90,10 @@ ASSUMPTIONS = [
 TRUSTED = ['numpy arange/digitize/unique/vstack/hstack inside nlist.pyx (correspondence run)',
            'exact oracle: python int arithmetic on float.as_integer_ratio inputs',
            'regular-expression template of the two growth blocks of nlist.pyx in the translator (any other shape of '
-           'these blocks is reported as a broken tie, never silently accepted)']
+           'these blocks is reported as a broken tie, never silently accepted)',
+           'translator of the declarations / scalar expressions / tests of nlist.pyx and dmag.pyx (regular expressions on '
+           'comment-stripped lines) and of NeighborList.dump / build / __getitem__ (python ast); os.fork isolation of the '
+           'phases that call the compiled code']
 
 CORPUS = cm.VERIF / 'corpus' / 'C03'
 TOL = '1/1000000000'
@@ -2707,13 +2727,18 @@ MANIFEST = {
             'tables equals the specification sorted [j | j != i, dmag2 i j < cutoff^2] (alg_complete, nlistA_complete, '
             'nlistFull_complete, via adjacent_bins, ghost_exists, compared_complete); a call is answered from the state '
             'at the time of the call whatever happened before (answers_fresh, answers_history_independent, '
-            'answers_complete); parse (render rows) = rows (nlist_text_roundtrip). Tie: translator for the growth blocks '
-            '+ differential correspondence with the real NeighborList / System.neighborlist / nlist on identical '
-            'rational inputs (rows, coord, storage width, dumped text, re-loaded rows, whole operation sequences on one '
-            'object).',
+            'answers_complete); parse (render rows) = rows (nlist_text_roundtrip), and the text dump writes according '
+            'to the source of the run is render (dump_as_modelled, src_dump_roundtrip); every real variable of nlist / '
+            'dmag2_c is declared double, cutoff2 = cutoff*cutoff, binsize = cutoff, the distance / self / minimum tests '
+            'are the strict modelled ones, coord / [i] are column 0 / the columns from 1 cut at coord (src_reals_double, '
+            'src_scalars_as_modelled, getitem_as_modelled). Tie: translator (growth blocks, declared C types, scalar '
+            'expressions and tests, dump formats, build / __getitem__) + differential correspondence with the real '
+            'NeighborList / System.neighborlist / nlist on identical rational inputs (rows, coord, storage width, dumped '
+            'text, re-loaded rows, whole operation sequences on one object).',
     'note': 'Trusted: Lean kernel + propext/Classical.choice/Quot.sound; the correspondence harness; numpy '
-            'arange/digitize/unique inside nlist.pyx; IEEE rounding of the distance test within 1e-9 of the cutoff is '
-            'exempt outside the dyadic-grid regime (exact there). The sweep order of np.unique is not modelled (proved '
+            'arange/digitize/unique inside nlist.pyx; IEEE rounding of the distance test is exempt only inside the '
+            'derived band u(16 S/c + 8) around the cutoff (about 1e-14..1e-12 relative) outside the dyadic-grid regimes '
+            '(exact there). The sweep order of np.unique is not modelled (proved '
             'irrelevant). Periodic distance = the 27-candidate distance of C02; pairs nearer only through a second '
             'image in strongly sheared cells are counted, not claimed.',
     'technique': 'Lean 4 theorems over a hand-written executable model + translator (growth blocks) + differential '
